@@ -372,6 +372,26 @@ def gen_number(rng, allow_nonfinite=True):
     return round(rng.uniform(-1e6, 1e6), rng.choice([0, 2, 6, 10]))
 
 
+_SPECIAL = {}
+
+
+def special_datetimes(h):
+    """(haystack zone, naive UTC instant) for every (zone, offset) pair whose offset is not a whole hour, lies strictly between
+    -1 h and 0, or exceeds 12 h in magnitude"""
+    if 'l' not in _SPECIAL:
+        out = []
+        for zn in zones():
+            tz = h.zoneinfo.timezone(zn)
+            seen = set()
+            for t, info in zip(getattr(tz, '_utc_transition_times', []), getattr(tz, '_transition_info', [])):
+                sec = int(info[0].total_seconds())
+                if 1 < t.year < 9990 and sec not in seen and (sec % 3600 or -3600 < sec < 0 or abs(sec) > 43200):
+                    seen.add(sec)
+                    out.append((zn, t + datetime.timedelta(hours=2)))
+        _SPECIAL['l'] = out
+    return _SPECIAL['l']
+
+
 def gen_scalar(rng, pre3, kinds=None):
     """a Haystack-valid scalar (no list/dict/grid); 3.0-only kinds only when not pre3"""
     h = H()
@@ -409,6 +429,12 @@ def gen_scalar(rng, pre3, kinds=None):
         return datetime.time(rng.randint(0, 23), rng.randint(0, 59), rng.randint(0, 59),
                              rng.choice([0, 0, 1, 500000, 999999, 12345, rng.randint(0, 999999)]))
     if k == 'datetime':
+        if rng.random() < 0.12:
+            # one of the unusual offsets a zone ever had: sub-hour, negative sub-hour (Monrovia before 1972, LMT-era zones), > 12 h
+            sp = special_datetimes(h)
+            if sp:
+                zn, t = rng.choice(sp)
+                return pytz.utc.localize(t + datetime.timedelta(seconds=rng.choice([0, 1, 86399]), microseconds=rng.choice([0, 1, 999999]))).astimezone(h.zoneinfo.timezone(zn))
         zname = rng.choice(zones())
         tz = h.zoneinfo.timezone(zname)
         trans = getattr(tz, '_utc_transition_times', None)
